@@ -142,15 +142,15 @@ def write_skeleton(flags):
 # ------------------------------------------------------------ std-library sessions
 STD_MODS = ["units::stoney", "units::planck", "extra::algebra", "math::constants", "core::strings",
             "units::bit", "math::number_theory", "units::si", "math::statistics", "units::hartree",
-            "core::lists", "physics::constants", "units::time", "math::geometry", "core::functions"]
+            "core::lists", "physics::constants", "units::time", "math::geometry", "core::functions", "core::scalar"]
 # (code, requires, provides, once)   requires/provides: names; "mod:<m>" = module m imported (transitively)
 STD_ITEMS = [
     ("let v1 = 2", [], ["v1"], False), ("let v1 = 40 + 2", [], ["v1"], False),
     ("let v2 = v1 + 1", ["v1"], ["v2"], False), ("fn f1(x) = 2 x", [], ["f1"], False),
-    ("fn f1(x) = 3 x", [], ["f1"], False), ("fn f2(x: Scalar) -> Scalar = x + v1", ["v1"], ["f2"], False),
+    ("fn f1(x) = 3 x", [], ["f1"], False), ("fn f2(x: Scalar) -> Scalar = x + v1", ["v1", "mod:core::scalar"], ["f2"], False),
     ("dimension Dq", [], ["Dq"], True), ("unit uq: Dq", ["Dq"], ["uq"], True), ("unit ur = 3 uq", ["uq"], ["ur"], True),
     ("let v3 = 5 uq", ["uq"], ["v3"], False), ("v3 -> ur", ["v3", "ur"], ["ans"], False),
-    ("struct P { a: Scalar }", [], ["P"], True), ("let v4 = P { a: 3 }", ["P"], ["v4"], False),
+    ("struct P { a: Scalar }", ["mod:core::scalar"], ["P"], True), ("let v4 = P { a: 3 }", ["P"], ["v4"], False),
     ("v4.a", ["v4"], ["ans"], False), ("v1 * 2", ["v1"], ["ans"], False), ("f1(3)", ["f1"], ["ans"], False),
     ("f2(1)", ["f2"], ["ans"], False), ("ans + 1", ["ans"], ["ans"], False), ("7 + 1", [], ["ans"], False),
     ("print(v1)", ["v1"], [], False), ("print(\"hi\")", [], [], False), ("unit uw", [], ["uw"], True),
@@ -400,7 +400,7 @@ def run(chk):
         else:
             sessions.append({"kind": "std", "mods": c["mods"], "inputs": c["inputs"]})
         origin.append("corpus")
-    n_toy = 320 if quick else 6000
+    n_toy = 240 if quick else 6000
     n_std = 70 if quick else 1200
     for _ in range(n_toy):
         table, ops = S.gen_toy_session(chk.rng)
